@@ -28,6 +28,8 @@ def parse_harness_file(path):
         s = ln.strip()
         if s.startswith('//@ append '):
             append = s[len('//@ append '):].strip()
+        elif s.startswith('//@ create '):
+            append = '+' + s[len('//@ create '):].strip()       # a new file (integration test) in the scratch copy
         elif s.startswith('//@ native '):
             p = shlex.split(s[len('//@ native '):])
             harnesses.append({'name': p[0], 'mode': 'native', 'bound': p[1] if len(p) > 1 else '', 'opts': {}})
@@ -55,6 +57,16 @@ def prepare(verif, repo, scratch):
         if not fn.endswith('.rs'): continue
         append, hs, txt = parse_harness_file(os.path.join(kdir, fn))
         if not append: continue
+        if append.startswith('+'):
+            append = append[1:]
+            target = os.path.join(d, append)
+            if os.path.isdir(os.path.dirname(os.path.dirname(target))):
+                os.makedirs(os.path.dirname(target), exist_ok=True)
+                open(target, 'w').write('// ---- created by /verif (scratch copy only): ' + fn + '\n' + txt)
+                for h in hs: info[h['name']] = dict(h, file=fn, append=append, missing=False, integration=os.path.splitext(os.path.basename(append))[0])
+            else:
+                for h in hs: info[h['name']] = dict(h, file=fn, append=append, missing=True)
+            continue
         target = os.path.join(d, append)
         if not os.path.exists(target):
             for h in hs: info[h['name']] = dict(h, file=fn, append=append, missing=True)
@@ -206,8 +218,8 @@ def run_oracles(verif, repo, scratch, names, tier, timeout=1500):
         if h is None or h.get('missing'):
             out_res[nm] = {'status': 'MISSING-TARGET', 'bound': (h or {}).get('bound', '')}
         else:
-            groups.setdefault(crate_dir(d, h['append']), []).append(nm)
-    for cd, sel in groups.items():
+            groups.setdefault((crate_dir(d, h['append']), h.get('integration')), []).append(nm)
+    for (cd, integ), sel in groups.items():
         env = dict(os.environ, CARGO_NET_OFFLINE='true')
         if 'verif_oracle_scrypt_kat' in sel:
             import scryptkat
@@ -220,7 +232,7 @@ def run_oracles(verif, repo, scratch, names, tier, timeout=1500):
                 sel = [x for x in sel if x != 'verif_oracle_scrypt_kat']
                 if not sel: continue
         is_lib = os.path.exists(os.path.join(cd, 'src', 'lib.rs'))
-        cmd = ['cargo', 'test', '--offline', '--lib' if is_lib else '--bins', '--', '--nocapture', '--test-threads', '4'] + sel
+        cmd = ['cargo', 'test', '--offline'] + (['--test', integ] if integ else ['--lib' if is_lib else '--bins']) + ['--', '--nocapture', '--test-threads', '4'] + sel
         rc, out, timed_out = _run(cmd, cd, env, timeout)
         shown = 'cd <scratch>/kani-src/%s && %s%s' % (os.path.relpath(cd, d), 'VERIF_SCRYPT_KAT=<scratch>/kani-src/scrypt_kat.txt ' if 'VERIF_SCRYPT_KAT' in env else '', ' '.join(cmd))
         compiled = re.search(r'^running \d+ tests?', out, re.M) is not None
